@@ -90,6 +90,10 @@ def compute_shape_features(sig, fs, f_range, center_extrema='peak',
         raise ValueError("This function has been designed to assume that the first extrema "
                          "identified will be a peak. This cannot be overwritten at this time.")
 
+    # Integer-typed signals: compute in floating point (sample differences, sums and negation may overflow or wrap)
+    if np.issubdtype(np.asarray(sig).dtype, np.integer):
+        sig = np.asarray(sig, dtype=float)
+
     # Negate signal if set to analyze trough-centered cycles
     if center_extrema == 'peak':
         pass
@@ -250,6 +254,10 @@ def compute_symmetry(df_samples, sig, period=None, time_peak=None, time_trough=N
     >>> df_samples = compute_cyclepoints(sig, fs, f_range=(8, 12))
     >>> sym_features = compute_symmetry(df_samples, sig)
     """
+
+    # Integer-typed signals: compute in floating point (sample differences, sums and negation may overflow or wrap)
+    if np.issubdtype(np.asarray(sig).dtype, np.integer):
+        sig = np.asarray(sig, dtype=float)
 
     # Determine rise and decay characteristics
     sym_features = {}
